@@ -1,4 +1,4 @@
-import Exetera.Lemmas.GroupByAggregate
+import Exetera.Lemmas.GroupByIndexed
 /-!
 # C07 — group-by results equal the group-wise reference computation
 
@@ -241,5 +241,64 @@ theorem aggregate_count_agrees_on_pregrouped (index : List Int) (hint : Bool) (h
 example : aggregate .repaired .max (.numeric [1, 1, 2, 2, 2, 5]) (some [5, 6, 1, 9, 3, 4]) = .ok [6, 9, 4] ∧
     groupbyAgg .repaired .max [⟨id, [1, 1, 2, 2, 2, 5]⟩] false [.plain [5, 6, 1, 9, 3, 4]] = .ok ⟨[[1, 2, 5]], [.ints [6, 9, 4]]⟩ :=
   ⟨rfl, rfl⟩
+
+/-! ## indexed-string targets, several targets -/
+
+/-- **`df.groupby(by, hint).min|max|first|last(target, ddf)` for an indexed-string target** with a well-formed index
+    (`decodeRows indices values` are its strings as byte lists): the call succeeds (no out-of-bounds read in
+    `apply_indices_to_index_values`, `apply_spans_index_of_min/max_indexed` — with fix D18 —, `index_of_first/last`), and
+    the value column holds for each distinct key tuple the first / last string of its rows in original order, resp. the
+    smallest / largest string in bytewise lexicographic order (a proper prefix is smaller). -/
+theorem groupby_indexed_eq_spec_partial (agg : Agg) (keys : List KeyCol) (hint : Bool) (indices values : List Nat) (n : Nat)
+    (hframe : Frame keys n) (hindex : ValidIndex indices values) (hrows : indices.length = n + 1) (hcast : Faithful keys)
+    (hhint : hint = true → RowsSorted (keyRows n (cols keys))) :
+    ∃ kcols out outKeys, groupbyAgg .repaired agg keys hint [.indexed indices values] = .ok ⟨kcols, [.strs out]⟩ ∧
+      ColumnsOf kcols outKeys ∧
+      IsGroupBy (keyRows n (cols keys)) (decodeRows indices values) (aggSpecStr agg) outKeys out := by
+  obtain ⟨k0, ks, rfl, hrect⟩ := frame_cases hframe
+  have := groupbyAgg_indexed_spec agg k0 ks hint indices values n hrect hindex hrows hcast
+    (fun h => sortedRows_of_rowsSorted _ n hrect (hhint h))
+  rw [← keyRows_eq_rowsBy _ n hrect] at this
+  exact this
+
+theorem groupby_indexed_eq_spec (agg : Agg) (keys : List KeyCol) (hint : Bool) (indices values : List Nat) (n : Nat)
+    (hframe : Frame keys n) (hindex : ValidIndex indices values) (hrows : indices.length = n + 1) (hdtype : SameDtype keys)
+    (hhint : hint = true → RowsSorted (keyRows n (cols keys))) :
+    ∃ kcols out outKeys, groupbyAgg .repaired agg keys hint [.indexed indices values] = .ok ⟨kcols, [.strs out]⟩ ∧
+      ColumnsOf kcols outKeys ∧
+      IsGroupBy (keyRows n (cols keys)) (decodeRows indices values) (aggSpecStr agg) outKeys out :=
+  groupby_indexed_eq_spec_partial agg keys hint indices values n hframe hindex hrows (same_dtype_faithful hdtype) hhint
+
+-- strings "b", "ab", "a" (D18's witness) in one group, "c", "" in another: min = "a", ""
+example : groupbyAgg .repaired .min [⟨id, [0, 0, 0, 1, 1]⟩] false [.indexed [0, 1, 3, 4, 5, 5] [98, 97, 98, 97, 99]] =
+    .ok ⟨[[0, 1]], [.strs [[97], []]]⟩ := rfl
+example : ValidIndex [0, 1, 3, 4, 5, 5] [98, 97, 98, 97, 99] := by
+  refine ⟨by decide, ?_⟩
+  intro x hx; simp at hx; rcases hx with rfl | rfl | rfl | rfl | rfl <;> decide
+
+/-- **targets are aggregated independently**: the result for a list of targets is the list of the results for each
+    target alone, with the same key columns -/
+theorem targets_independent (v : Variant) (agg : Agg) (keys : List KeyCol) (hint : Bool) (t : Target) (ts : List Target)
+    (kcols : List (List Int)) (c : Col) (cs : List Col)
+    (h1 : groupbyAgg v agg keys hint [t] = .ok ⟨kcols, [c]⟩) (h2 : groupbyAgg v agg keys hint ts = .ok ⟨kcols, cs⟩) :
+    groupbyAgg v agg keys hint (t :: ts) = .ok ⟨kcols, c :: cs⟩ := by
+  unfold groupbyAgg at *
+  cases hg : groupby v keys hint with
+  | error e => simp [hg] at h1
+  | ok g =>
+    simp only [hg] at h1 h2 ⊢
+    cases hw : writeKeys g (keys.map (·.data)) with
+    | error e => simp [hw] at h1
+    | ok ks =>
+      simp only [hw] at h1 h2 ⊢
+      cases ha : aggTarget v agg g t with
+      | error e => simp [aggTargets, ha] at h1
+      | ok c' =>
+        cases hb : aggTargets v agg g ts with
+        | error e => simp [hb] at h2
+        | ok cs' =>
+          simp only [aggTargets, ha, hb, SortIndex.consE_ok] at h1 h2 ⊢
+          simp only [Except.ok.injEq, Out.mk.injEq, List.cons.injEq, and_true] at h1 h2
+          rw [h1.2, h2.2, h1.1]
 
 end Exetera.Props.C07
